@@ -11,7 +11,7 @@
     are model leaves, compared one by one with the live patterns ([CLeaf]). *)
 From Coq Require Import String.   (* only for the [CLit] cases *)
 From Verif Require Import Lib.Base Lib.Dec Lib.PyStr Gen.PyChars Gen.ClChars
-  Changelog.Model Changelog.Spec Changelog.Lit.
+  Changelog.Model Changelog.Spec Changelog.EditSpec Changelog.Lit.
 
 (** * Literals
 
@@ -287,17 +287,7 @@ Definition normal_form (os : ostate) (re : option (result ostate)) : bool :=
   | Err _ => true
   end.
 
-Definition op_in_domain (o : lop) : bool :=
-  match op_of o with
-  | NewBlock p v d u uc ch a dt ps => new_block_ok p v d u uc ch a dt ps
-  | AddChange s => change_line s
-  | SetAttr APackage v => wf_package v
-  | SetAttr AVersion v => wf_version v
-  | SetAttr ADists v => wf_dists_str v
-  | SetAttr AUrgency v => wf_key v
-  | SetAttr AAuthor v => wf_author v
-  | SetAttr ADate v => wf_date_str v
-  end.
+Definition op_in_domain (o : lop) : bool := op_dom (op_of o).
 
 Definition holds (c : case) : bool :=
   match c with
